@@ -574,6 +574,27 @@ second line of the listing <span` + d.attrs("") + `>with a highlighted word</spa
 		}
 		return false
 	}},
+	{"youtube-iframe-hostile-query", false, func(s, a, d govcC05Set, child string) string {
+		// player parameters whose NAMES carry markup: a name with a blank and "=", names of identification / handler attributes
+		return `<div` + a.attrs("") + `><iframe src="https://www.youtube.com/embed/dQw4w9WgXcQ?rel=0&amp;x%20onmouseover%3DgovcEvil(7)%2F%2F=1&amp;style=color%3Ared&amp;id=govcid&amp;class=govccls&amp;onload=govcEvil(8)&amp;%22%3E%3Cscript%3EgovcEvil(9)%3C%2Fscript%3E=1" width="560" height="315" allowfullscreen` + s.attrs("") + `></iframe>` + child + `</div>`
+	}, func(r *html.Node) bool {
+		for _, e := range dom.GetElementsByTagName(r, "div") {
+			if govcC04IsPlaceholder(e) && dom.GetAttribute(e, "data-type") == "youtube" {
+				return true
+			}
+		}
+		return false
+	}},
+	{"vimeo-iframe-hostile-query", false, func(s, a, d govcC05Set, child string) string {
+		return `<div` + a.attrs("") + `><iframe src="https://player.vimeo.com/video/76979871?color=fff&amp;y%20onclick%3DgovcEvil(6)%20z=1&amp;id=govcid&amp;style=top%3A0" width="560" height="315"` + s.attrs("") + `></iframe>` + child + `</div>`
+	}, func(r *html.Node) bool {
+		for _, e := range dom.GetElementsByTagName(r, "div") {
+			if govcC04IsPlaceholder(e) && dom.GetAttribute(e, "data-type") == "vimeo" {
+				return true
+			}
+		}
+		return false
+	}},
 	{"twitter-blockquote", true, func(s, a, d govcC05Set, child string) string {
 		return `<div` + a.attrs("") + `><blockquote` + s.attrs("twitter-tweet") + `><p lang="en" dir="ltr"` + d.attrs("") + `>kindprobe the piles are fine ` + child + `</p>&mdash; Town surveyor <a href="https://twitter.com/surveyor/status/1234567890123"` + d.attrs("") + `>June 3, 2026</a></blockquote></div>`
 	}, func(r *html.Node) bool {
@@ -728,7 +749,7 @@ func TestGovcInertReplay(t *testing.T) {
 	evals, nontrivial, samples := 0, 0, 0
 	defer func() {
 		fmt.Printf("GOVC-CASES evaluations=%d distinct_nontrivial=%d rule=%s\n", evals, nontrivial,
-			"element kind (paragraph with one inline child, mixed paragraph, div/h2 with one inline child, list, blockquote, pre, img, picture, figure with/without caption link, video, data table, youtube iframe, twitter blockquote) x attribute set (id, class, style, onclick, onload/onerror, upper-case on*, data-*, several) x position (element itself, block ancestor, descendants, all) plus each kind x script/style child (bare, with attributes, with style=display:block); second family: special element kind (inline svg with path / g+use+circle / text+tspan, MathML msup / semantics+annotation, picture+source, details+summary, ruby+rt, audio+source, custom element) x host (retained data table cell, figure caption with a link, twitter blockquote, inside a main-flow paragraph, block of its own) x attribute set x position (the element itself, its deepest descendants, both) plus script/style children inside the special element; one document per case; non-trivial = the element kind was found retained in Result.Node (second family: host retained and the special element or one of its descendants present in the output)")
+			"element kind (paragraph with one inline child, mixed paragraph, div/h2 with one inline child, list, blockquote, pre, img, picture, figure with/without caption link, video, data table, youtube iframe, youtube / vimeo iframes whose query parameter NAMES carry markup, twitter blockquote) x attribute set (id, class, style, onclick, onload/onerror, upper-case on*, data-*, several) x position (element itself, block ancestor, descendants, all) plus each kind x script/style child (bare, with attributes, with style=display:block); second family: special element kind (inline svg with path / g+use+circle / text+tspan, MathML msup / semantics+annotation, picture+source, details+summary, ruby+rt, audio+source, custom element) x host (retained data table cell, figure caption with a link, twitter blockquote, inside a main-flow paragraph, block of its own) x attribute set x position (the element itself, its deepest descendants, both) plus script/style children inside the special element; one document per case; non-trivial = the element kind was found retained in Result.Node (second family: host retained and the special element or one of its descendants present in the output)")
 	}()
 
 	check := func(key string, k govcC05Kind, probe string) {
